@@ -236,7 +236,7 @@ static void run_plan(uint64_t idx, const Plan& p) {
 }
 
 extern "C" __attribute__((noreturn)) void trap(int code) { fprintf(stderr, "siminst: trap %d\n", code); _exit(78); }
-extern "C" __attribute__((used)) const char* __asan_default_options() { return "exitcode=77:detect_leaks=0:abort_on_error=0"; }
+extern "C" __attribute__((used)) const char* __asan_default_options() { return "exitcode=77:detect_leaks=0:abort_on_error=0:max_malloc_fill_size=1073741824:malloc_fill_byte=190"; }
 extern "C" __attribute__((used)) const char* __ubsan_default_options() { return "halt_on_error=1:exitcode=77:print_stacktrace=1"; }
 static void on_alarm(int) { const char m[] = "INTERNAL: watchdog in siminst\n"; if (write(2, m, sizeof m - 1)) {} _exit(94); }
 
